@@ -66,7 +66,7 @@ ASSUME_SCHED = [
 
 ASSUME_SEQ = [
     "the tie between model and /repo is sampled differential correspondence (counts in coverage)",
-    "interior nodes are not in the proof model: routing is represented by fences; interior behaviour is covered by the walker + dump comparison",
+    "interior nodes are not in the sequential proof model: routing is represented by fences; that interior descent equals fence routing on every dump passing checkLayer is a theorem (C08 interior_descent_matches_fences); splits/merges of interior nodes are covered by the walker + dump comparison",
 ]
 
 
